@@ -363,6 +363,13 @@ class Interp:
         return m
 
     def hasattr(self, obj, name):
+        if isinstance(name, str) and name.startswith("__") and isinstance(obj, (SList, SArr, SDict, str)):
+            # protocol methods of builtin containers / arrays are not attributes of the models: answer from a table
+            if name in ("__len__", "__iter__", "__getitem__", "__contains__"):
+                return True
+            if name in ("__call__", "__next__", "__enter__", "__exit__", "__array_interface__"):
+                return False
+            raise Undecided(f"hasattr(<container>, {name!r})")
         try:
             self.getattr(obj, name)
             return True
@@ -812,9 +819,12 @@ class Interp:
                     e2 = Env(sub.module, sub.func, sub)
                     self.assign(g.target, item(i), e2)
                     self.ctx.in_quant += 1
+                    # element i exists only for 0 <= i < count: index checks inside the element expression may use that
+                    self.ctx.quant_guards.append(z3.And(to_z3(i) >= 0, to_z3(i) < to_z3(count)))
                     try:
                         return self.eval(elt, e2)
                     finally:
+                        self.ctx.quant_guards.pop()
                         self.ctx.in_quant -= 1
                 probe = fn(self.ctx.fresh_int("cmp_i"))
                 dtype = "real" if is_reallike(probe) else ("bool" if is_boollike(probe) else
